@@ -1727,6 +1727,7 @@ func VariablesInAllowedPositionRule(context *ValidationContext) *ValidationRuleI
 // Note that this only validates literal values, variables are assumed to
 // provide values of the correct type.
 func isValidLiteralValue(ttype Input, valueAST ast.Value) (bool, []string) {
+	verifStep(8)
 	if _, ok := ttype.(*NonNull); !ok {
 		if valueAST == nil {
 			return true, nil
